@@ -24,11 +24,11 @@ from .c08_reference import parse_instant, schedule  # noqa: E402  (calendar arit
 PROPERTY = "C07"
 CLAUSES = ["equity-prefix-identical", "fills-prefix-identical", "allocations-prefix-identical",
            "failure-identical-or-after-cut"]
-G_QUICK = 14
+G_QUICK = 30
 G_THOROUGH = 2400
 BOUND = (
     "Sampled, not exhaustive. Group g = gen_group(seed, g) from random.Random('c07:<seed>:<g>'): one synthetic market "
-    "(2-4 assets, random walk) and one configuration - alpha model cycling with g mod 5 through fixed weights / "
+    "(2-4 assets, random walk, rows missing with probability 0.08 in 1 market of 3) and one configuration - alpha model cycling with g mod 5 through fixed weights / "
     "fixed weights on a dynamic universe whose last asset's DATA start 5-15 business days into the run and which "
     "enters the universe on or after that day / top-N momentum / SMA crossover / inverse volatility (signal models "
     "on a static or dynamic universe); rebalance kind cycling weekly MON..FRI / daily / end_of_month / buy_and_hold; "
@@ -103,7 +103,8 @@ def gen_group(seed, g):
     }
     adjust = rng.random() < 0.5
     market = {"seed": rng.randrange(10 ** 9), "symbols": symbols, "first": M.add_bdays(start_day, -8).isoformat(),
-              "last": (end_day + dt.timedelta(days=5)).isoformat(), "starts": starts, "gap_prob": 0.0,
+              "last": (end_day + dt.timedelta(days=5)).isoformat(), "starts": starts,
+              "gap_prob": rng.choice([0.0, 0.0, 0.08]),
               "adjust": adjust, "sigma": 0.03}
     # cuts
     reb_days = [t.date() for t in schedule(kind, weekday, parse_instant(cfg["start"]), parse_instant(cfg["end"]))]
@@ -225,7 +226,14 @@ def check_group(group, only_cut=None):
 
 
 def _worker(args):
-    return check_group(gen_group(*args))
+    group = gen_group(*args)
+    try:
+        return check_group(group)
+    except Exception as exc:  # noqa: BLE001  (never raise out of run(): report it against every clause)
+        why = "check could not be evaluated: %s: %s" % (type(exc).__name__, exc)
+        return [{"case": {"market": group["market"], "cfg": group["cfg"], "cut": cut},
+                 "results": [(c, False, why, None) for c in CLAUSES], "nontrivial": False, "early_failure": False}
+                for cut in group["cuts"]]
 
 
 def run(tier="quick", seed=0, budget_s=60.0, jobs=1):
